@@ -573,6 +573,17 @@ Definition m_vunpackvs (buf : list Z) : option vhdr :=
   Some (mkvh il nv ivs (zip_fields names types isizes offs orders) vsname vsclass extag exref version more)
   end end end end end end end end end end end end end end end.
 
+(** VSsetname / VSsetclass (vg.c): the string is cut at VSNAMELENMAX characters; the header is marked as changing
+    size ([new_h_sz], which makes VSdetach release the old header element before it writes the new one) when the new
+    string is longer than the CURRENT string of the same kind.  [grow] is the regenerated condition. *)
+Definition m_setstr (grow : Z -> Z -> Z) (cur new : list Z) (new_h_sz : bool) : list Z * bool :=
+  let curr_len := Z.of_nat (length cur) in
+  let slen := Z.of_nat (length new) in
+  (if VSNAMELENMAX <? slen then firstn (Z.to_nat VSNAMELENMAX) new else new,
+   new_h_sz || negb (grow curr_len slen =? 0)).
+Definition m_setname := m_setstr vssetname_grow_cond.
+Definition m_setclass := m_setstr vssetclass_grow_cond.
+
 (* ------------------------------------------------------------------ *)
 (** * VSfpack *)
 
